@@ -1,12 +1,12 @@
 /-
-The skip-list height arithmetic the CODE defines (Gen/Trans.lean, regenerated from
+The skip-list height arithmetic the CODE defines (Gen/TransBM.lean, regenerated from
 headerlist/header_list.go on every run) is the model's (`HL.lowOff`, `HL.gah`) on every
 non-negative height.
 -/
-import Neutrino.Gen.Trans
+import Neutrino.Gen.TransBM
 import Neutrino.Model.HeaderList
 namespace Neutrino.HL
-open Neutrino.Gen.Trans Neutrino.GoInt
+open Neutrino.Gen.TransBM Neutrino.GoInt
 
 /-- **`invertLowestOne` is `lowOff`** (`n & (n-1)`; at `n = 0` the code computes `0 & -1 = 0`, the
 model `0 &&& (0 - 1) = 0` with truncated subtraction) -/
